@@ -19,6 +19,24 @@ CLAIMED = {
  "C15": ("Theorems (Properties/C15.v): the code-shaped operations of both multiplicative backends satisfy all group/exponent laws with canonical results for every admissible parameter set and every arithmetic kernel; small sets certified safe-prime by a proved trial-division checker; the regenerated 2048-bit constants satisfy p=2q+1, 1<g<p, g^q=1, cofactor 2. Tie: every Element/Exponent/Ctx method exhaustively on p=23(,47), boundary/random at 16/62/2048 bits, both backends on identical integers.",
          BASE_NOTE + "prime p2048 /\\ prime q2048 is an explicit hypothesis (cannot be certified with what is installed). Constants theorems use Bignums.BigZ for evaluation: Print Assumptions lists Coq's primitive 63-bit integer axioms (allow-listed)."),
 }
+
+CLAIMED.update({
+ "C02": ("Theorems (Properties/C02.v): the permutation sampler (byte-level model of rand 0.8 Fisher-Yates) returns a permutation for every byte stream; apply_permutation: output k = input perm[k] re-encrypted with that input's returned exponent, same length, total on permutations; outputs decrypt to a permutation of the input plaintexts; any cascade of mixers preserves the plaintext multiset — for any lawful backend. Tie: all permutations of N<=4(5), gen_shuffle up to N=64, gen_permutation bytes->permutation, on small/16/62/2048-bit sets.",
+         BASE_NOTE + "ristretto under the group-law hypothesis."),
+ "C03": ("Theorem (Properties/C03.v): tw_complete — for every lawful backend, N>=1, ciphertext list, key, generators, permutation, exponents, all 4N+4 prover draws, label and every hash function, check_proof accepts gen_proof's output for apply_permutation's output (900-line kernel-checked proof of the Terelius-Wikstrom algebra on the code-shaped model). Tie: generators, shuffle outputs, proof BYTES (same RNG draws) and decisions equal the model for all N! permutations N<=4(5) and sampled larger N; verification in a fresh process.",
+         BASE_NOTE + "ristretto under the group-law hypothesis; serialization round trip of proofs is C12."),
+ "C04": ("Theorems (Properties/C04.v): check_proof = Ok true <=> all seven component counts are N>=1 and the 5+N division-free TW equations hold for challenges recomputed from the complete statement (tw_equations is the independent reference verifier); wrong counts => Ok false for arbitrary contents; total (never Panic) on member inputs; changing s1..s4 or the chain responses of an accepted proof => rejected. Tie: every single-field mutation, every vector-length combination, replays against other inputs/outputs/pk/generators/label, N=0, mismatched lists.",
+         BASE_NOTE + "Computational soundness (a permutation witness exists, under DL in the ROM) is NOT claimed. Model follows the repaired verifier (fix: commit in /repo, known_findings.json)."),
+ "C07": ("Theorems (Properties/C07.v): completeness of decrypt_and_prove; decision characterisation of verify_decryption; Chaum-Pedersen special soundness extracting ONE exponent for key and factor; such a factor is the one private-key decryption divides by; a wrong factor admits at most one challenge mod q; batch verification = conjunction, one bad pair at any position rejects. Tie: exhaustive (sk, ciphertext) on p=23, wrong factors / moved proofs at 16/62/2048 bits, batches 1..8 with a bad pair at every position via the keymaker hook.",
+         BASE_NOTE + "Soundness is stated as extraction/uniqueness, not as an absolute 'rejects' (that would need collision resistance of SHA-512 mod q)."),
+ "C08": ("Theorems (Properties/C08.v): joint key = product of shares in any order (= g^(sum sk)); share proofs verify; joint decryption of an encryption under the joint key returns the plaintext for every n>=1; factor order irrelevant; lists position by position; omitting a trustee yields m*gr^x (the plaintext only if gr^x = 1). Tie: n in 1..16, all orders for n<=3(4), lists of length 0..5, exhaustive secrets n<=2 on p=23, through the crate-private Keymaker (hook).",
+         BASE_NOTE + "ristretto under the group-law hypothesis; rayon build in C19."),
+ "C09": ("Theorems (Properties/C09.v): for every t>=1, receiver, coefficient vector: g^share = verification_key_factor(commitments) (no bound on the number of trustees); share = P(j+1) mod q; tampered share detected (q prime). Tie: every (n,t,receiver) up to 20(40) on small sets, n up to 100 at 62/2048 bits, gen_coefficients under scripted RNG, release (+debug) builds.",
+         BASE_NOTE + "Model follows the repaired verification_key_factor (fix: commit in /repo)."),
+ "C10": ("Theorems (Properties/C10.v): the library's lagrange coefficient satisfies its defining congruence for every listing order; sum_i lambda_i P(i) = P(0) mod q for every polynomial with at most |S| coefficients (polynomial root bound + Lagrange interpolation proved from scratch over Z_q); group form: prod (gr^share_i)^lambda_i = gr^P(0). Tie: all subsets/orders for n<=6(8), sampled n<=12, t=1..|S|.",
+         BASE_NOTE + "'fewer than t do not reconstruct' is exercised on >=62-bit groups only (it is not a theorem: it fails exactly when the quotient polynomial vanishes at 0)."),
+})
+
 src_commits = subprocess.run(["git", "-C", "/repo", "log", "--format=%h %s"], capture_output=True, text=True).stdout.splitlines()
 hooks = [l.split()[0] for l in src_commits if "verif hook" in l]
 man = {
